@@ -23,7 +23,12 @@ e2 = executable('bin/e2', files=['main.c'], libs=[a])
 test(e1)
 test(e2, environment={'A': '1', 'B': '2', 'C': '3'})
 install(e1, e2, inc)
-pkg_config('p', version='1.0', includes=[inc], libs=[s, a], conflicts=[('foo', '>=1,<2,!=1.5,!=1.7')])
+pkg_config('p', version='1.0', includes=[inc], libs=[s, a], conflicts=[('foo', '>=1,<2,!=1.5,!=1.7'), ('bar', '>=1.0,!=1.0'),
+                                                                   ('baz', '<=2.0,!=2.0,>=2.0a1')])
+multi = build_step(['gen/alpha/a.txt', 'gen/beta/b.txt', 'gen/gamma/c.txt', 'gen/delta/d.txt'],
+                   cmd=['touch', 'gen/alpha/a.txt', 'gen/beta/b.txt', 'gen/gamma/c.txt', 'gen/delta/d.txt'])
+pre = [shared_library('prebuilt/%s/lib%s.so' % (d, d)) for d in ('one', 'two', 'three', 'four')]
+e3 = executable('e3', files=['main.c'], libs=pre)
 alias('everything', [e1, e2])
 extra_dist(files=['README'])
 """
@@ -34,6 +39,8 @@ CONTEXTS = {
     'from-srcdir-relative': ('12345', '{src}', '.', '../b'),
     'seed-77': ('77', '{top}', 'src', 'b'),
     'seed-4242-absolute': ('4242', '{top}', '{src}', '{top}/b'),
+    'seed-2': ('2', '{top}', 'src', 'b'), 'seed-3': ('3', '{top}', 'src', 'b'), 'seed-5': ('5', '{top}', 'src', 'b'),
+    'seed-8': ('8', '{top}', 'src', 'b'), 'seed-13': ('13', '{top}', 'src', 'b'),
 }
 PRIMARY_SUFFIXES = ('Makefile', 'compile_commands.json', '.pc', 'build.ninja')
 
@@ -96,6 +103,8 @@ class Determinism(Bounded):
             w('s3.c', 'int s3(void) { return 0; }\n')
             w('main.c', 'int main(void) { return 0; }\n')
             w('README', '')
+            for d in ('one', 'two', 'three', 'four'):
+                w('prebuilt/%s/lib%s.so' % (d, d), '')
             lp = top + '/bin/bfg9000'
             os.makedirs(top + '/bin')
             with open(lp, 'w') as f:
